@@ -1,7 +1,7 @@
 (* Proofs about Model/EdPos.v: the cross-reference list (every reference once, sorted, exact
    spans, for every provider / postponement schedule) and the position map. *)
 From Coq Require Import Sorting.Sorted Sorting.Permutation.
-From TxV Require Import Core.Base Model.EdPos.
+From TxV Require Import Core.Base Model.EdPosDefs Gen.SrcEdPos Model.EdPos.
 
 Local Open Scope N_scope.
 
@@ -9,16 +9,33 @@ Local Open Scope N_scope.
 Definition start_le (a b : entry) : Prop := e_start a <= e_start b.
 Definition start_lt (a b : entry) : Prop := e_start a < e_start b.
 
+(* the facts translated from the source, as the proofs use them (each holds by computation
+   on Gen/SrcEdPos.v, i.e. only while the source has the repaired shape) *)
+Lemma ekey_eq e : ekey src_list_key e = e_start e.
+Proof. reflexivity. Qed.
+Lemma sort_entries_eq l : sort_entries l = sort_entries_core l.
+Proof. reflexivity. Qed.
+Lemma mk_entry_eq x t : mk_entry (x, t) =
+  {| e_ref := cid x; e_name := cname x; e_start := cstart x; e_end := cend x;
+     e_file := tfile t; e_dstart := tstart t; e_dend := tend t |}.
+Proof. reflexivity. Qed.
+Lemma setdefault_eq d x : setdefault d x = if has_key (ikey x) d then d else d ++ [x].
+Proof. reflexivity. Qed.
+Lemma key_le_eq a b : key_le a b = (N.ltb (fst b) (fst a) || (N.eqb (fst a) (fst b) && N.leb (snd a) (snd b)))%bool.
+Proof. reflexivity. Qed.
+
 Lemma insert_entry_perm x l : Permutation (x :: l) (insert_entry x l).
 Proof.
   induction l as [|y r IH]; cbn [insert_entry]; [apply Permutation_refl|].
+  rewrite (ekey_eq x), (ekey_eq y).
   destruct (N.leb (e_start x) (e_start y)); [apply Permutation_refl|].
   eapply perm_trans; [apply perm_swap|]. apply perm_skip. exact IH.
 Qed.
 
 Lemma sort_entries_perm l : Permutation l (sort_entries l).
 Proof.
-  induction l as [|x r IH]; cbn [sort_entries fold_right]; [apply perm_nil|].
+  rewrite sort_entries_eq.
+  induction l as [|x r IH]; cbn [sort_entries_core fold_right]; [apply perm_nil|].
   eapply perm_trans; [apply perm_skip; exact IH|]. apply insert_entry_perm.
 Qed.
 
@@ -26,7 +43,7 @@ Lemma insert_entry_sorted x l : StronglySorted start_le l -> StronglySorted star
 Proof.
   induction l as [|y r IH]; intro Hs; cbn [insert_entry].
   - constructor; [constructor | constructor].
-  - destruct (N.leb (e_start x) (e_start y)) eqn:E.
+  - rewrite (ekey_eq x), (ekey_eq y). destruct (N.leb (e_start x) (e_start y)) eqn:E.
     + apply N.leb_le in E. constructor; [exact Hs|].
       constructor; [exact E|].
       apply StronglySorted_inv in Hs as [_ Hall].
@@ -39,7 +56,8 @@ Qed.
 
 Lemma sort_entries_sorted l : StronglySorted start_le (sort_entries l).
 Proof.
-  induction l as [|x r IH]; cbn [sort_entries fold_right]; [constructor|].
+  rewrite sort_entries_eq.
+  induction l as [|x r IH]; cbn [sort_entries_core fold_right]; [constructor|].
   apply insert_entry_sorted. exact IH.
 Qed.
 
@@ -164,7 +182,7 @@ Proof.
   induction xts as [|[x t] r IH]; cbn [map fst]; intro H; [constructor|].
   apply StronglySorted_inv in H as [Hr Ha]. constructor; [apply IH; exact Hr|].
   rewrite Forall_forall in *. intros e He. apply in_map_iff in He as [[y u] [<- Hy]].
-  unfold start_lt. cbn. apply Ha. apply in_map. apply (in_map fst) in Hy. exact Hy.
+  unfold start_lt. rewrite !mk_entry_eq. cbn [e_start]. apply Ha. apply in_map. apply (in_map fst) in Hy. exact Hy.
 Qed.
 
 (* one-to-one, in the order of the reference texts *)
@@ -256,10 +274,10 @@ Lemma fold_in l : forall d x,
 Proof.
   induction l as [|y r IH]; intros d x Hx; cbn [fold_left] in Hx; [left; exact Hx|].
   apply IH in Hx as [Hx|[Hk [l1 [l2 [-> Hl1]]]]].
-  - unfold setdefault in Hx. destruct (has_key (ikey y) d) eqn:Ey; [left; exact Hx|].
+  - rewrite setdefault_eq in Hx. destruct (has_key (ikey y) d) eqn:Ey; [left; exact Hx|].
     apply in_app_or in Hx as [Hx|[<-|[]]]; [left; exact Hx|].
     right. split; [exact Ey|]. exists [], r. split; reflexivity.
-  - right. unfold setdefault in Hk. destruct (has_key (ikey y) d) eqn:Ey.
+  - right. rewrite setdefault_eq in Hk. destruct (has_key (ikey y) d) eqn:Ey.
     + split; [exact Hk|]. exists (y :: l1), l2. split; [reflexivity|].
       rewrite has_key_cons, Hl1, orb_false_r.
       destruct (key_eqb (ikey x) (ikey y)) eqn:E; [|reflexivity].
@@ -273,7 +291,7 @@ Qed.
 Lemma fold_nodup l : forall d, NoDup (map ikey d) -> NoDup (map ikey (fold_left setdefault l d)).
 Proof.
   induction l as [|y r IH]; intros d Hd; cbn [fold_left]; [exact Hd|].
-  apply IH. unfold setdefault. destruct (has_key (ikey y) d) eqn:Ey; [exact Hd|].
+  apply IH. rewrite setdefault_eq. destruct (has_key (ikey y) d) eqn:Ey; [exact Hd|].
   rewrite map_app. cbn [map]. apply has_key_false in Ey.
   eapply Permutation_NoDup; [apply Permutation_cons_append|]. constructor; assumption.
 Qed.
@@ -281,7 +299,7 @@ Qed.
 Lemma fold_keeps l : forall d k, has_key k d = true -> has_key k (fold_left setdefault l d) = true.
 Proof.
   induction l as [|y r IH]; intros d k Hk; cbn [fold_left]; [exact Hk|].
-  apply IH. unfold setdefault. destruct (has_key (ikey y) d); [exact Hk|].
+  apply IH. rewrite setdefault_eq. destruct (has_key (ikey y) d); [exact Hk|].
   rewrite has_key_app, Hk. reflexivity.
 Qed.
 
@@ -289,7 +307,7 @@ Lemma fold_complete l : forall d x, In x l -> has_key (ikey x) (fold_left setdef
 Proof.
   induction l as [|y r IH]; intros d x Hx; [destruct Hx|]. cbn [fold_left].
   destruct Hx as [->|Hx]; [|apply IH; exact Hx].
-  apply fold_keeps. unfold setdefault. destruct (has_key (ikey x) d) eqn:E; [exact E|].
+  apply fold_keeps. rewrite setdefault_eq. destruct (has_key (ikey x) d) eqn:E; [exact E|].
   rewrite has_key_app, has_key_cons.
   replace (key_eqb (ikey x) (ikey x)) with true by (symmetry; apply key_eqb_eq; reflexivity).
   rewrite orb_true_r. reflexivity.
@@ -313,7 +331,7 @@ Qed.
 
 Lemma key_le_total a b : key_le a b = false -> key_le b a = true.
 Proof.
-  unfold key_le. destruct a as [a1 a2], b as [b1 b2]. cbn [fst snd]. intro H.
+  rewrite !key_le_eq. destruct a as [a1 a2], b as [b1 b2]. cbn [fst snd]. intro H.
   apply orb_false_iff in H as [H1 H2]. apply N.ltb_ge in H1.
   destruct (N.ltb a1 b1) eqn:E; [reflexivity|]. apply N.ltb_ge in E.
   assert (a1 = b1) by lia. subst. rewrite N.eqb_refl in *. cbn [andb orb] in *.
@@ -322,7 +340,7 @@ Qed.
 
 Lemma key_le_trans a b c : key_le a b = true -> key_le b c = true -> key_le a c = true.
 Proof.
-  unfold key_le. destruct a as [a1 a2], b as [b1 b2], c as [c1 c2]. cbn [fst snd].
+  rewrite !key_le_eq. destruct a as [a1 a2], b as [b1 b2], c as [c1 c2]. cbn [fst snd].
   rewrite !orb_true_iff, !andb_true_iff, !N.ltb_lt, !N.eqb_eq, !N.leb_le. intros H1 H2.
   destruct H1 as [H1|[-> H1]], H2 as [H2|[-> H2]]; try (left; lia). right; split; [reflexivity | lia].
 Qed.
@@ -403,7 +421,7 @@ Qed.
 
 Lemma key_le_not_contains x y : key_le x y = true -> x <> y -> ~ contains x y.
 Proof.
-  unfold key_le, contains. destruct x as [x1 x2], y as [y1 y2]. cbn [fst snd].
+  rewrite key_le_eq. unfold contains. destruct x as [x1 x2], y as [y1 y2]. cbn [fst snd].
   rewrite orb_true_iff, andb_true_iff, N.ltb_lt, N.eqb_eq, N.leb_le. intros H Hne [H1 H2].
   destruct H as [H|[-> H]]; [lia|]. apply Hne. f_equal. lia.
 Qed.
@@ -513,3 +531,11 @@ Proof.
   apply load_listed_in_order; [|exact Hl].
   rewrite Forall_map. eapply Forall_impl; [|exact Hwf]. intros t Ht. apply tree_refs_increasing. exact Ht.
 Qed.
+
+(* ================================================================ the translated source facts *)
+Lemma source_facts :
+  src_ref_pos_start = RefStart /\ src_ref_pos_end = RefEnd /\
+  src_def_pos_start = TgtStart /\ src_def_pos_end = TgtEnd /\
+  src_list_sorted = true /\ src_list_key = KRefStart /\
+  src_dict_register = KeepFirst /\ src_dict_order = (Desc, Asc).
+Proof. repeat split; reflexivity. Qed.
